@@ -3,6 +3,7 @@
 set -e
 cd "$(dirname "$0")"
 export CARGO_NET_OFFLINE=true
+python3 tools/gen_glue.py
 python3 tools/extract.py
 (cd lean && lake build LMV lmv-driver)
 mkdir -p .build
